@@ -24,7 +24,7 @@ RULE = ("scenario = 1..3 producers x 1..10 items each (typed messages of the fou
         "pre-serialised strings, unserialisable objects) x child read behaviour (eager/slow/stall windows) x pipe capacity x close instant; "
         "non-trivial = a send blocked on back-pressure, or an unserialisable item preceded a serialisable one, or >= 2 producers interleaved")
 PROBES = ["value_rejected_by_fast_json_backend", "frame_over_64k", "inbound_batch_rejected_during_writes", "stdin_send_blocked", "unserialisable_before_valid", "producers_interleaved", "payload_with_line_breaks", "closed_while_backlog"]
-TIERS = {"quick": {"runs": 15000, "wall": 45.0}, "thorough": {"runs": 1000000, "wall": 560.0}}
+TIERS = {"quick": {"runs": 15000, "wall": 45.0}, "thorough": {"runs": 800000, "wall": 560.0}}
 ASSUMPTIONS = [
     "order 'sent' = order in which the (real, FIFO) write stream accepted the items",
     "fault family (child closes its stdin mid-stream): items after the break may be lost; what the child received must still be a whole-line, in-order prefix",
